@@ -25,6 +25,8 @@ Trip  == IF Triples = "none" THEN {}
 
 ASSUME \A c \in Pairs \cup Trip : PrintT(<<"CASE", ToJson(c)>>)
 ASSUME PrintT(<<"COUNT", Cardinality(Pairs), Cardinality(Trip)>>)
+\* the white space characters the harness lays the tokens out with (one layout uses every one of them in turn)
+ASSUME PrintT(<<"WS", ToJson(LayoutWhiteSpace)>>)
 VARIABLE v
 Init == v = 0
 Next == FALSE /\ v' = v
